@@ -592,27 +592,25 @@ func pbGetQueryDeserialize(in *pbx.GetQuery) *MsgGetQuery {
 		What: in.GetWhat(),
 	}
 
-	if desc := in.GetDesc(); desc != nil {
-		msg.Desc = &MsgGetOpts{
-			IfModifiedSince: int64ToTime(desc.GetIfModifiedSince()),
-			Limit:           int(desc.GetLimit()),
-		}
-	}
-	if sub := in.GetSub(); sub != nil {
-		msg.Sub = &MsgGetOpts{
-			IfModifiedSince: int64ToTime(sub.GetIfModifiedSince()),
-			Limit:           int(sub.GetLimit()),
-		}
-	}
-	if data := in.GetData(); data != nil {
-		msg.Data = &MsgGetOpts{
-			BeforeId: int(data.GetBeforeId()),
-			SinceId:  int(data.GetSinceId()),
-			Limit:    int(data.GetLimit()),
-		}
-	}
+	msg.Desc = pbGetOptsDeserialize(in.GetDesc())
+	msg.Sub = pbGetOptsDeserialize(in.GetSub())
+	msg.Data = pbGetOptsDeserialize(in.GetData())
 
 	return &msg
+}
+
+func pbGetOptsDeserialize(in *pbx.GetOpts) *MsgGetOpts {
+	if in == nil {
+		return nil
+	}
+	return &MsgGetOpts{
+		User:            in.GetUser(),
+		Topic:           in.GetTopic(),
+		IfModifiedSince: int64ToTime(in.GetIfModifiedSince()),
+		SinceId:         int(in.GetSinceId()),
+		BeforeId:        int(in.GetBeforeId()),
+		Limit:           int(in.GetLimit()),
+	}
 }
 
 func pbSetDescSerialize(in *MsgSetDesc) *pbx.SetDesc {
